@@ -295,6 +295,11 @@ class C07(Prop):
                 return
             raise Violation("C07.%s.raised" % kind, outcome.split(":", 1)[-1], "clone() raised %s" % outcome)
         c = w.h("e%d.0" % ev["i"])
+        if type(c) is not type(src):
+            # the copy is an object of the very class of its source (the classes the package exports carry the query
+            # shortcuts and are what every isinstance test of the library looks for)
+            raise Violation("C07.%s.class" % kind, disc, "the copy is a %s.%s, the source a %s.%s" % (
+                type(c).__module__, type(c).__name__, type(src).__module__, type(src).__name__))
         own = set(id(x) for x in owned_walk(c))
         for x in owned_walk(c):
             if kind_of(x) == "instance":
